@@ -235,7 +235,7 @@ func interpretPath(d string) (segs []pathSeg, ok bool) {
 }
 
 // normalizeSegs applies the two simplifications the property allows.
-func normalizeSegs(segs []pathSeg) []pathSeg {
+func normalizeSegs(segs []pathSeg, tol float64) []pathSeg {
 	var out []pathSeg
 	eq := func(a, b, c, d float64) bool { return a == c && b == d }
 	for _, s := range segs {
@@ -253,8 +253,8 @@ func normalizeSegs(segs []pathSeg) []pathSeg {
 				s = pathSeg{Cmd: 'L', P: []float64{p[0], p[1], p[4], p[5]}}
 			}
 		}
-		if s.Cmd == 'L' && s.P[0] == s.P[2] && s.P[1] == s.P[3] {
-			continue
+		if s.Cmd == 'L' && math.Abs(s.P[0]-s.P[2]) <= tol && math.Abs(s.P[1]-s.P[3]) <= tol {
+			continue // zero-length (within the comparison tolerance: rounding may make a tiny line vanish)
 		}
 		if s.Cmd == 'Z' && len(out) > 0 && out[len(out)-1].Cmd == 'Z' {
 			continue // closing a subpath that has just been closed is a zero-length line
@@ -270,7 +270,7 @@ func smoothAfterDegenerate(segs []pathSeg) bool {
 	for k := 0; k+1 < len(segs); k++ {
 		a, b := segs[k], segs[k+1]
 		if (a.Cmd == 'C' || a.Cmd == 'Q') && b.Cmd == a.Cmd && b.Smooth {
-			if n := normalizeSegs([]pathSeg{a}); len(n) == 0 || n[0].Cmd == 'L' {
+			if n := normalizeSegs([]pathSeg{a}, 0); len(n) == 0 || n[0].Cmd == 'L' {
 				return true
 			}
 		}
@@ -290,9 +290,8 @@ func comparePaths(in, out string) string {
 	if !okOut {
 		return fmt.Sprintf("output path data is malformed: %q", core.Trunc(out, 120))
 	}
-	ni, no := normalizeSegs(si), normalizeSegs(so)
 	scale := 1.0
-	for _, s := range ni {
+	for _, s := range si {
 		for _, v := range s.P {
 			if a := math.Abs(v); a > scale && !math.IsInf(a, 0) {
 				scale = a
@@ -300,6 +299,7 @@ func comparePaths(in, out string) string {
 		}
 	}
 	tol := 1e-9 * scale
+	ni, no := normalizeSegs(si, tol), normalizeSegs(so, tol)
 	if len(ni) != len(no) {
 		k := 0
 		same := func(a, b pathSeg) bool {
@@ -385,6 +385,9 @@ func genPathNumber(r *core.Rand, nonNeg bool) string {
 		s = strconv.Itoa(r.Intn(100)) + "."
 	case 7:
 		s = strconv.Itoa(r.Range(1, 99)) + "e" + strconv.Itoa(r.Range(-3, 3))
+		if r.Chance(1, 12) {
+			s = strconv.Itoa(r.Range(1, 99)) + "e" + r.Pick([]string{"100", "-100", "20", "-20", "200"}) // exponents whose digits end in 00
+		}
 	case 8:
 		s = strconv.Itoa(r.Intn(50)) + "." + strconv.Itoa(r.Intn(1000)) + "E" + r.Pick([]string{"+1", "-1", "0", "2"})
 	case 9:
@@ -767,6 +770,10 @@ func genSVGDoc(r *core.Rand) string {
 	if r.Chance(2, 3) {
 		b.WriteString(" xmlns:xlink=\"http://www.w3.org/1999/xlink\"")
 	}
+	svgPrefix := r.Chance(1, 4)
+	if svgPrefix {
+		b.WriteString(" xmlns:svg=\"http://www.w3.org/2000/svg\"")
+	}
 	foreign := r.Chance(1, 2)
 	if foreign {
 		b.WriteString(" xmlns:ink=\"http://ink.example/ns\" xmlns:rdf=\"http://www.w3.org/1999/02/22-rdf-syntax-ns#\"")
@@ -824,14 +831,18 @@ func genSVGDoc(r *core.Rand) string {
 		ws()
 		switch k := r.Intn(14); {
 		case k == 0 && depth < 3:
-			b.WriteString("<g")
+			name := "g"
+			if svgPrefix && r.Chance(1, 2) {
+				name = "svg:g" // the same element through the declared svg: prefix
+			}
+			b.WriteString("<" + name)
 			shapeAttrs()
 			b.WriteString(">")
 			for i := r.Range(1, 3); i > 0; i-- {
 				elem(depth + 1)
 			}
 			ws()
-			b.WriteString("</g>")
+			b.WriteString("</" + name + r.Pick([]string{"", " "}) + ">")
 		case k == 1:
 			b.WriteString("<path")
 			shapeAttrs()
